@@ -95,7 +95,7 @@ PROPS = {
                 rule="8 function/gradient pairs, n 1..12, random points in [-5,5]^n away from singularities, 6th-order central differences",
                 explanation="theorems over R (Coquelicot) about the gradients regenerated from benchmarks.py by the translator, every dimension",
                 assumptions=COMMON_ASSUME + ["NumPy's elementary functions approximate their real counterparts"]),
-    "C20": dict(monitor=D2, level="proof", corr=["driver"],
+    "C20": dict(monitor=D2, level="proof", corr=["driver:fault"],
                 rule="every call index of every kind of user callable of each explored run x 3 exception types; non-trivial = >=10 injection points",
                 explanation="theorem C20_propagation on the driver model (writer/error monad); fault-injection search on the implementation",
                 assumptions=COMMON_ASSUME),
